@@ -17,6 +17,7 @@ func init() {
 		Mirror(c, "R-MIRROR", eqh, typeclassBinMethods, false, nil, 40)
 		Rel(c, "R-REL", eqh, anyDecl, instanceParam, 80)
 		HashRules(c, c.Pkg("hash"))
+		Size(c, "R-SIZE", eqh)
 	})
 }
 
